@@ -77,6 +77,12 @@ func main() {
 		switch os.Args[2] {
 		case "rel":
 			props.DumpRel(ctx)
+		case "tmpl":
+			what := ""
+			if len(os.Args) > 3 {
+				what = os.Args[3]
+			}
+			props.DumpTemplates(ctx, what)
 		case "order":
 			props.DumpOrder(ctx)
 		case "panic":
